@@ -148,6 +148,11 @@ class PathCtx:
             return True
         if c is False:
             c = z3.BoolVal(False)
+        else:
+            cs = z3.simplify(c)
+            if z3.is_true(cs):           # closed formula that simplifies to true: no solver call needed
+                self.proved += 1
+                return True
         excl = []
         tries = 0
         while True:
